@@ -130,6 +130,35 @@ func main() {
 			checkText(run, t, c)
 		}
 	}
+	// history independence: every (text, code) again in reverse order must convert to the same error
+	type conv struct {
+		msg, desc string
+		add       any
+		code      int
+	}
+	get := func(t string, c int32) (cv conv) {
+		vr.Try(func() {
+			if e, ok := mtproto.RpcErrorToNative(&objects.RpcError{ErrorCode: c, ErrorMessage: t}).(*mtproto.ErrResponseCode); ok {
+				cv = conv{e.Message, e.Description, e.AdditionalInfo, e.Code}
+			}
+		})
+		return
+	}
+	fwd := map[string]conv{}
+	for _, t := range texts {
+		for _, c := range codes {
+			fwd[fmt.Sprintf("%s/%d", t, c)] = get(t, c)
+		}
+	}
+	for i := len(texts) - 1; i >= 0; i-- {
+		for j := len(codes) - 1; j >= 0; j-- {
+			if g := get(texts[i], codes[j]); !reflect.DeepEqual(g, fwd[fmt.Sprintf("%s/%d", texts[i], codes[j])]) {
+				run.Violation("parse|history-dependent|"+textClass(texts[i]), fmt.Sprintf("RpcErrorToNative(%q, %d) gives %+v after one history of calls and %+v after another", texts[i], codes[j], fwd[fmt.Sprintf("%s/%d", texts[i], codes[j])], g), map[string]any{"Text": texts[i], "Code": codes[j]})
+				i = -1
+				break
+			}
+		}
+	}
 	run.Set("error_texts", len(texts))
 	run.Set("catalogue_entries", len(catalogue))
 	run.Sample(map[string]any{"text": "INTERDC_3_CALL_RICH_ERROR", "code": 500})
